@@ -518,9 +518,37 @@ def const_indices(e):
     return sorted(out)
 
 
+def _const_range(body, op_or_extra):
+    """a named `const X: Range<usize> = a..b` (RangeTo / RangeFrom) used as a slice index: resolved through the evaluated bytes of
+    the constant (a refactoring that names the layout's byte ranges must not change what the rule sees)"""
+    d = op_or_extra if isinstance(op_or_extra, dict) else {}
+    ty = str(d.get("ty") or "")
+    name = d.get("def")
+    if not name or "std::ops::Range" not in ty:
+        return None
+    try:
+        c = body.prog.const(name)
+    except Exception:
+        return None
+    by = c.get("bytes") or []
+    kind = ty.split("<")[0].rsplit("::", 1)[-1]
+    w = [int.from_bytes(bytes(by[i:i + 8]), "little") for i in range(0, len(by) - 7, 8)]
+    if kind == "Range" and len(w) >= 2:
+        return [w[0], w[1]]
+    if kind == "RangeTo" and len(w) >= 1:
+        return [0, w[0]]
+    if kind == "RangeFrom" and len(w) >= 1:
+        return [w[0], None]
+    return None
+
+
 def ranges_in(body, e):
     out = []
     for x in e.walk():
+        if x.k == "const":
+            cr = _const_range(body, x.extra)
+            if cr is not None:
+                out.append(cr)
         if x.k == "agg" and x.extra and x.extra.rsplit("::", 1)[-1] in ("Range", "RangeTo", "RangeFrom", "RangeInclusive"):
             kind = x.extra.rsplit("::", 1)[-1]
             vals = []
@@ -774,6 +802,11 @@ def check_journal(ctx):
                     out.append([vals[0].c, None])
                 else:
                     out.append([vals[0].c, vals[1].c])
+            elif n.kind == "call":
+                for a in n.ev["args"]:
+                    cr = _const_range(body, a) if a.get("k") == "const" else None
+                    if cr is not None:
+                        out.append(cr)
         return sorted(out, key=lambda r: (r[0], r[1] or 1 << 40))
     b = ctx.fn("allocation_journal::journal_header", inst)
     if b is not None:
